@@ -10,11 +10,29 @@ for p in $patches; do
   git -C /repo worktree add -q --detach $WT HEAD || exit 2
   ( cd $WT && git apply /verif/$p ) || { echo "$n does-not-apply"; git -C /repo worktree remove --force $WT; continue; }
   VERIF_REPO=$WT ./tools/baseline.sh > /tmp/bn/$n.baseline 2>&1 || echo "$n BASELINE-CHANGED $(grep MISSING /tmp/bn/$n.baseline | head -2)"
-  for id in C01 C02 C03 C04 C05 C06 C07 C08 C09 C10 C11 C12 C13 C14 C15 C16 C17 C18 C19 C20; do
+  ids="C01 C02 C03 C04 C05 C06 C07 C08 C09 C10 C11 C12 C13 C14 C15 C16 C17 C18 C19 C20"
+  if [ -n "$BENIGN_ROUTE" ]; then
+    # route by the files a refactor touches: inbound code cannot reach the outbound checks and vice versa
+    # (saml.go, go.mod and anything unknown: every check)
+    files=$(grep '^+++ b/' /verif/$p | sed 's#^+++ b/##')
+    inb=0; outb=0
+    for f in $files; do
+      case "$f" in
+        decode_response.go|decode_logout_request.go|validate.go|retrieve_assertion.go|attribute.go|types/response.go|types/encrypted_assertion.go|types/encrypted_key.go|xml_constants.go) inb=1 ;;
+        build_request.go|build_logout_response.go|logout_request.go|types/metadata.go|uuid/*|authn_request.go) outb=1 ;;
+        *) inb=1; outb=1 ;;
+      esac
+    done
+    ids=""
+    [ $inb = 1 ] && ids="$ids C01 C02 C03 C04 C05 C06 C07 C08 C09 C10 C11 C12 C20"
+    [ $outb = 1 ] && ids="$ids C13 C14 C15 C16 C18 C19"
+    ids="$ids C17"
+  fi
+  for id in $ids; do
     out=$(VERIF_REPO=$WT ./check $id quick -no-evidence ${BENIGN_RUNS:+-runs $BENIGN_RUNS} 2>&1); r=$?   # BENIGN_RUNS=n: all directed cases, n random runs
     if [ $r -ne 0 ]; then rc=1; echo "$n $id FALSE-ALARM rc=$r: $(echo "$out" | grep -E 'signature|HARNESS|BUILD' | head -3 | tr '\n' ' ' | cut -c1-300)"; fi
   done
-  echo "$n done"
+  echo "$n done ($ids)"
   git -C /repo worktree remove --force $WT
 done
 exit $rc
